@@ -56,15 +56,19 @@ def with_flavors(cases, flavors):
     return out
 
 
-def slice_cases(cases, limit, seed):
-    """Deterministic slice for the quick tier: a seed-dependent sample of a family that the thorough tier runs in full."""
+def slice_cases(cases, limit, seed=None, key="family"):
+    """Slice of an EXHAUSTIVE family.  The order is a fixed pseudo-random permutation that depends only on `key`, never on
+    VERIF_SEED, and a smaller limit always selects a prefix of what a larger limit selects: the quick tier's slice is a subset
+    of the thorough tier's slice, and the verdict on an unchanged tree does not depend on the seed (DESIGN.md 5.3).  (`seed` is
+    accepted for backward compatibility and ignored.)"""
     import os
+    import zlib
     if limit is not None and os.environ.get("VERIF_DEV_SCALE"):      # development aid only (never set by the manifest)
         limit = max(20, int(limit * float(os.environ["VERIF_DEV_SCALE"])))
     if limit is None or len(cases) <= limit:
         return cases, True
-    rng = random.Random(seed)
-    idx = sorted(rng.sample(range(len(cases)), limit))
+    order = sorted(range(len(cases)), key=lambda i: zlib.crc32(("%s:%d" % (key, i)).encode()))
+    idx = sorted(order[:limit])
     return [cases[i] for i in idx], False
 
 
